@@ -142,17 +142,17 @@ def _forest_avg(A):
 _FOREST_RAISES = [("ValueError", lambda A: Z(A.X.shape[1]) > 1),
                   ("TypeError", lambda A: And(Z(A.X.shape[1]) == 1, Z(A.X.shape[2]) != Z(A.self.attrs["series_length"])))]
 
-contract(f"{TSFC}::TimeSeriesForestClassifier.predict_proba", "C17,C16", cases=["1", "2", "3"],
+contract(f"{TSFC}::TimeSeriesForestClassifier.predict_proba", "C17,C16,C12", cases=["1", "2", "3"],
          inputs=lambda B, case: _forest(B, case, "sktime.classification.interval_based._tsf", "TimeSeriesForestClassifier", "predict_proba"),
-         raises=_FOREST_RAISES, returns=_forest_avg,
+         raises=_FOREST_RAISES, applicable=lambda A: isinstance(getattr(A.self, "ghost", None), dict), returns=_forest_avg,
          ensures=[("every-tree-sees-mean-std-slope-of-its-own-intervals", _forest_events("predict_proba"), {"modular": False})],
          frame=lambda A: [A.self, A.X],
          notes=["1..3 trees (bound on the NUMBER of trees only; each tree is an arbitrary function returning an arbitrary (n, n_classes) "
                 "array); joblib returns results in submission order (assumed)"])
 
-contract(f"{TSFR}::TimeSeriesForestRegressor.predict", "C17,C16", cases=["1", "2", "3"],
+contract(f"{TSFR}::TimeSeriesForestRegressor.predict", "C17,C16,C12", cases=["1", "2", "3"],
          inputs=lambda B, case: _forest(B, case, "sktime.regression.interval_based._tsf", "TimeSeriesForestRegressor", "predict"),
-         raises=_FOREST_RAISES, returns=_forest_avg,
+         raises=_FOREST_RAISES, applicable=lambda A: isinstance(getattr(A.self, "ghost", None), dict), returns=_forest_avg,
          ensures=[("every-tree-sees-mean-std-slope-of-its-own-intervals", _forest_events("predict"), {"modular": False})],
          frame=lambda A: [A.self, A.X])
 
@@ -234,14 +234,14 @@ def _havoc_int_list(I, S):
     return SArr((n,), lambda i: f(Z(i)), "int", "list")
 
 
-contract(f"{BASE}::BaseClassifier.predict", "C17", cases=["-"],
+contract(f"{BASE}::BaseClassifier.predict", "C17,C12", cases=["-"],
          inputs=_decode_inputs("sktime.classification.base", "BaseClassifier", encoder=True),
          ensures=[("label-of-a-maximal-probability-column-for-every-instance", _decoded)],
          invariants={0: _base_predict_inv}, loop_havoc={0: {"predictions": _havoc_int_list}},
          frame=lambda A: [A.self, A.X],
          notes=["predict_proba is abstract (any (n, n_classes) array); LabelEncoder.inverse_transform(idx)[i] == classes_[idx[i]] (sklearn, assumed)"])
 
-contract(f"{TSFC}::TimeSeriesForestClassifier.predict", "C17", cases=["-"],
+contract(f"{TSFC}::TimeSeriesForestClassifier.predict", "C17,C12", cases=["-"],
          inputs=_decode_inputs("sktime.classification.interval_based._tsf", "TimeSeriesForestClassifier"),
          ensures=[("label-of-a-maximal-probability-column-for-every-instance", _decoded)],
          frame=lambda A: [A.self, A.X])
@@ -271,7 +271,7 @@ def _score_post(A, r):
         set(evs[0].kwargs) <= {"normalize"}
 
 
-contract(f"{BASE}::BaseClassifier.score", "C17", cases=["-"], inputs=_score_inputs,
+contract(f"{BASE}::BaseClassifier.score", "C17,C12", cases=["-"], inputs=_score_inputs,
          ensures=[("fraction-of-matching-predictions:accuracy_score(y, predict(X), normalize=True)", _score_post, {"modular": False})],
          frame=lambda A: [A.self, A.X, A.y],
          notes=["sklearn.metrics.accuracy_score(y_true, y_pred, normalize=True) = fraction of positions where the two agree (external, assumed)"])
@@ -366,13 +366,13 @@ def _colens_decoded(A, r):
 
 
 _CE_CASES = ["1|", "2|", "3|", "1|drop", "2|drop", "3|drop", "1|rem", "2|rem"]
-contract(f"{COLENS}::BaseColumnEnsembleClassifier.predict_proba", "C17,C16", cases=_CE_CASES, inputs=_colens_inputs,
-         returns=_forest_avg,
+contract(f"{COLENS}::BaseColumnEnsembleClassifier.predict_proba", "C17,C16,C12", cases=_CE_CASES, inputs=_colens_inputs,
+         applicable=lambda A: isinstance(getattr(A.self, "ghost", None), dict), returns=_forest_avg,
          ensures=[("every-member-sees-exactly-its-own-columns", _colens_events, {"modular": False})],
          frame=lambda A: [A.self, A.X],
          notes=["1..3 members (bound on the NUMBER of members only), with and without skipped ('drop' / empty selection) entries"])
 
-contract(f"{COLENS}::BaseColumnEnsembleClassifier.predict", "C17", cases=_CE_CASES, inputs=_colens_inputs,
+contract(f"{COLENS}::BaseColumnEnsembleClassifier.predict", "C17,C12", cases=_CE_CASES, inputs=_colens_inputs,
          ensures=[("label-of-a-maximal-average-probability-column", _colens_decoded)],
          frame=lambda A: [A.self, A.X])
 
@@ -458,9 +458,9 @@ def _boss_returns(A):
     return SArr((n, C), lambda i, j: ops.simp(_votes(g, m, i, j) / z3.RealVal(m)), "real", "ndarray")
 
 
-contract(f"{BOSS}::BOSSEnsemble.predict_proba", "C17,C16", cases=["1", "2", "3"], inputs=_boss_inputs,
+contract(f"{BOSS}::BOSSEnsemble.predict_proba", "C17,C16,C12", cases=["1", "2", "3"], inputs=_boss_inputs,
          raises=[("ValueError", lambda A: Z(A.X.shape[1]) > 1)],
-         returns=_boss_returns, invariants={1: _boss_inv},
+         applicable=lambda A: isinstance(getattr(A.self, "ghost", None), dict), returns=_boss_returns, invariants={1: _boss_inv},
          ensures=[("every-member-votes-once-on-the-callers-data",
                    lambda A, r: [(e.obj, e.method) for e in trace() if e.obj is not None] == [(c, "predict") for c in A.self.ghost["members"]]
                    and all(e.arg(0) is A.X for e in trace() if e.obj is not None), {"modular": False})],
